@@ -14,7 +14,7 @@ RULE = (
     "non-trivial = the compared field is non-zero and (for reflections) the configuration differs from its mirror image"
 )
 ASSUMPTIONS = ["finite alphabets; nx<=4, ny<=7, <=2 surfaces", "coupled solvers tightened to rtol 1e-13", "OpenMDAO/NumPy/SciPy trusted"]
-BOUND = {"quick": "nx<=3, ny<=5", "thorough": "nx<=4, ny<=7"}
+BOUND = {"quick": "nx<=3 (+ one planform with nx=4), ny<=5", "thorough": "nx<=4, ny<=7"}
 TOL = 1e-9
 TOLS = 1e-7
 POLAR = np.array([1.0, -1.0, 1.0])
@@ -28,7 +28,11 @@ def states(tier, seed):
     nxs = [2, 3] if tier == "quick" else [2, 3, 4]
     nys = [3, 5] if tier == "quick" else [3, 5, 7]
     # (a1) aero
-    for pf, nx, ny, al, be, rot, two in itertools.product(pfs, nxs, nys, [5.0, -3.0], [0.0, 4.0], [False, True], [False, True]):
+    geo = list(itertools.product(pfs, nxs, nys, [5.0, -3.0], [0.0, 4.0], [False, True], [False, True]))
+    if tier == "quick":
+        # nx = 4 is the smallest mesh with an interior chordwise panel row
+        geo += list(itertools.product(["twdi"], [4], [5], [5.0], [0.0, 4.0], [False, True], [False, True]))
+    for pf, nx, ny, al, be, rot, two in geo:
         if pf == "camber" and nx < 3:
             continue
         st.append(dict(part="aero", pf=pf, nx=nx, ny=ny, alpha=al, beta=be, rot=rot, two=two, fam=fam))
@@ -54,7 +58,7 @@ def states(tier, seed):
         "yshear_cp": [[0.0, 0.0, 0.0], [0.05, -0.02, 0.1]],
         "zshear_cp": [[0.0, 0.0, 0.0], [0.1, 0.3, -0.2]],
     }
-    for pf, nx, ny in itertools.product(pfs, nxs, [3, 4] if tier == "quick" else [3, 4, 5]):
+    for pf, nx, ny in list(itertools.product(pfs, nxs, [3, 4] if tier == "quick" else [3, 4, 5])) + ([("twdi", 4, 3)] if tier == "quick" else []):
         if pf == "camber" and nx < 3:
             continue
         if pf == "crm":
